@@ -18,9 +18,13 @@
      with the witnesses replayed on the implementation by the check.
    The specification is the assertion evaluate() reports (the last one): the
    check hands that assertion, with the named sub-specifications it refers to
-   inlined, to the model (repair D46). *)
+   inlined, to the model (repair D46).
+   C20_generated_explainer: the explainer AS TRANSLATED FROM THE PYTHON SOURCE (tools/py2coq_explainer.py -> ExplainGen.v,
+     regenerated on every build) computes Explain.explain through the erasure of the syntax nodes, the stored robustness
+     lists (= rho, C01) and the relation between the dict of names and the table of columns. *)
 From Coq Require Import List Arith ZArith Lia.
-From RV Require Import Val Syntax Rho Sat Explain ExplainFacts ExplainCorrect ExtZ ExtZFacts.
+From Coq Require Import String.
+From RV Require Import Val Syntax Rho Sat Offline Units NodeName Explain ExplainFacts ExplainCorrect ExtZ ExtZFacts PyExplain ExplainGen ExplainGenCorrect.
 Import ListNotations.
 
 Theorem C20_sufficient :
@@ -97,3 +101,45 @@ Example C20_nonvacuous :
   explainable p = true /\ rho ExtZArith std p w 4 0 = Fin (-1) /\
   explain ExtZArith std w 4 [p] = Some [(0, [(1, 2)]); (1, [(1, 1)])].
 Proof. split; [exact ExtZ_sign_laws|]. cbv zeta. repeat split; vm_compute; reflexivity. Qed.
+
+(* the explainer AS TRANSLATED FROM THE PYTHON SOURCE: on a syntax tree nd of rtamt with well-formed leaves whose bounds -- in whatever
+   units they are written -- are whole numbers of sampling periods with begin <= end (erase nd = Some f, wf_bounds f), when self.spec.results
+   holds for every node the robustness of its formula at 0 .. n-1 (what evaluate() stores: C01) and different variables are different
+   columns: explain() of the code raises iff Explain.explain does, and then the intervals its dict holds under the name of every variable
+   are the intervals of that variable's column in the model's table (for which C20_sufficient is proved) *)
+Theorem C20_generated_explainer :
+  forall (VS : Val) (AR : Arith VS) (pk : formula -> formula -> pkind) (w : trace) (n : nat),
+    0 < n ->
+  forall (vidx : string -> string -> nat) (cval : string -> V) (du : tunit) (per : Z) (pu : tunit) (results : NodeName.node -> list V),
+    (forall c f, erase vidx cval du per pu c = Some f -> results c = map (fun i => rho AR pk f w n i) (seq 0 n)) ->
+    (forall v f v' f', var_ok v = true -> field_ok f = true -> var_ok v' = true -> field_ok f' = true ->
+       vidx v f = vidx v' f' -> v = v' /\ f = f') ->
+  forall (pre : list NodeName.node) (nd : NodeName.node) (f : formula),
+    nwf nd = true -> erase vidx cval du per pu nd = Some f -> wf_bounds f = true ->
+    match gen_stl_explain AR results du per pu (pre ++ [nd]), explain AR pk w n [f] with
+    | Some d, Some tb => forall v fl, var_ok v = true -> field_ok fl = true ->
+                           py_dget (KName (var_name v fl)) [] d = tb_get (vidx v fl) tb
+    | None, None => True
+    | _, _ => False
+    end.
+Proof. exact @gen_stl_explain_refines. Qed.
+Print Assumptions C20_generated_explainer.
+
+(* the generated explainer runs: always((x >= 0) -> eventually[0,1s](y >= 1)) with period 500 ms on 4 samples; the violation at
+   sample 1 (x >= 0, y < 1 at 1..3) is explained by x at [1,1] and y at [1,3] *)
+Example C20_generated_nonvacuous :
+  let b0 := {| bnum := 0; bden := 1; bunit := None |} in
+  let b1 := {| bnum := 1; bden := 1; bunit := Some US |} in
+  let px := NBin (b_pred CGeq) (NVar "x" "") (NConst "0.0") in
+  let py := NBin (b_pred CGeq) (NVar "y" "") (NConst "1.0") in
+  let nd := NUn u_alw (NBin b_implies px (NTUn t_ev b0 b1 py)) in
+  let sx : list (@V ExtZVal) := [Fin 1; Fin 1; Fin (-1); Fin (-1)] in
+  let sy : list (@V ExtZVal) := [Fin 1; Fin (-1); Fin (-1); Fin (-1)] in
+  let res := fun c : NodeName.node =>
+    if String.eqb (nname c) (nname px) then sx else if String.eqb (nname c) (nname py) then sy
+    else if String.eqb (nname c) (nname (NTUn t_ev b0 b1 py)) then [Fin 1; Fin (-1); Fin (-1); Fin (-1)]
+    else if String.eqb (nname c) (nname (NBin b_implies px (NTUn t_ev b0 b1 py))) then [Fin 1; Fin (-1); Fin 1; Fin 1]
+    else if String.eqb (nname c) (nname nd) then [Fin (-1); Fin (-1); Fin 1; Fin 1] else [] in
+  option_map (fun d => (py_dget (KName "x") [] d, py_dget (KName "y") [] d)) (gen_stl_explain ExtZArith res US 500 UMS [nd])
+  = Some ([(1, 1)], [(1, 3)]).
+Proof. cbv zeta. vm_compute. reflexivity. Qed.
